@@ -10,7 +10,18 @@ mod par;
 mod replica;
 mod session;
 
+unsafe extern "C" {
+    fn mallopt(param: i32, value: i32) -> i32;
+}
+
 fn main() {
+    // glibc: never give freed arena memory back per execution (heap_trim -> madvise was 75 % of
+    // the run time: every execution allocates and frees a few hundred KB in a worker arena).
+    unsafe {
+        mallopt(-1, 1 << 30); // M_TRIM_THRESHOLD
+        mallopt(-2, 64 << 20); // M_TOP_PAD
+        mallopt(-3, 1 << 30); // M_MMAP_THRESHOLD
+    }
     let args = Args::parse();
     explorer::quiet_panics();
     let code = match args.property.as_str() {
